@@ -9,7 +9,9 @@ import (
 	"sort"
 	"strings"
 	"sync"
+	"sync/atomic"
 	"testing"
+	"time"
 
 	"github.com/dgryski/go-wyhash"
 	"github.com/honeycombio/refinery/config"
@@ -25,6 +27,8 @@ import (
 //              goroutines sharing one instance decide the same
 //   nesting    kept at N implies kept at every M <= N over a ladder of rates up to 2^64-1
 //   fraction   kept fraction over a fixed number of PRNG ids within 6 sigma of 1/N
+//   reload     every (rate, keep) returned while and after UpdateFromConfig switches between
+//              PRNG-chosen rates is the threshold decision for the RETURNED rate
 
 // ---- adapters to the code under test ---------------------------------------
 
@@ -43,6 +47,44 @@ func c10SRDecide(s *StressRelief, id string) (uint, bool) {
 }
 
 func c10SRSeed() uint64 { return hashSeed }
+
+// c10HookLogger is an injected logger.Logger: every log line emitted by the code under
+// test calls hook() on the emitting goroutine. Logging is an injected dependency, so
+// whatever happens "while the logger runs" is a legitimate interleaving.
+type c10HookLogger struct {
+	logger.NullLogger
+	hook atomic.Pointer[func()]
+}
+
+type c10HookEntry struct{ l *c10HookLogger }
+
+func (l *c10HookLogger) Debug() logger.Entry { return &c10HookEntry{l} }
+func (l *c10HookLogger) Info() logger.Entry  { return &c10HookEntry{l} }
+func (l *c10HookLogger) Warn() logger.Entry  { return &c10HookEntry{l} }
+func (l *c10HookLogger) Error() logger.Entry { return &c10HookEntry{l} }
+
+func (e *c10HookEntry) WithField(string, interface{}) logger.Entry     { return e }
+func (e *c10HookEntry) WithString(string, string) logger.Entry         { return e }
+func (e *c10HookEntry) WithFields(map[string]interface{}) logger.Entry { return e }
+func (e *c10HookEntry) Logf(string, ...interface{}) {
+	if h := e.l.hook.Load(); h != nil {
+		(*h)()
+	}
+}
+
+func c10NewReloadable(rate uint64) (*StressRelief, *config.MockConfig, *c10HookLogger) {
+	cfg := &config.MockConfig{StressRelief: config.StressReliefConfig{Mode: "always", SamplingRate: rate}}
+	hl := &c10HookLogger{}
+	s := &StressRelief{Config: cfg, Logger: hl}
+	s.UpdateFromConfig()
+	return s, cfg, hl
+}
+
+func c10SetRate(cfg *config.MockConfig, rate uint64) {
+	cfg.Mux.Lock()
+	cfg.StressRelief.SamplingRate = rate
+	cfg.Mux.Unlock()
+}
 
 // ---- reference model -------------------------------------------------------
 
@@ -234,6 +276,140 @@ func TestVerif_C10(t *testing.T) {
 		}
 		run.Count("decisions", int64(nids*(workers+1)))
 		run.Nontrivial(fmt.Sprintf("goroutines:%d:%d", rate, kept))
+	})
+
+	// --- decisions taken while the sampling rate is being reloaded -------------
+	// A reload must never make GetSampleRate answer outside the pure function: whatever
+	// rate a call reports, keep must be the threshold decision for THAT rate. Readers run
+	// (a) freely in two background goroutines for the whole history and (b) in a goroutine
+	// started from inside every log call UpdateFromConfig makes; the logging goroutine gives
+	// them a bounded head start (they simply block until the reload ends if the lock is
+	// held across the log call). Timing only widens the window; the verdict is logical.
+	type c10dec struct {
+		id   string
+		rate uint
+		keep bool
+	}
+	run.Cases("reload", run.N(40, 600), func(i int, rng *verifkit.Rand) {
+		reloadRates := []uint64{0, 1, 2, 2, 3, 3, 5, 10, 10, 100, 1000, 1 << 16, 1 << 32, 1 << 63, math.MaxUint64}
+		first := reloadRates[rng.Intn(len(reloadRates))]
+		s, cfg, hl := c10NewReloadable(first)
+		configured := map[uint64]bool{first: true}
+		if first == 0 {
+			configured[1] = true
+		}
+		ids := make([]string, 64)
+		for j := range ids {
+			ids[j] = rng.Hex(32)
+		}
+		var mu sync.Mutex
+		var decs []c10dec
+		record := func(batch []c10dec) {
+			mu.Lock()
+			decs = append(decs, batch...)
+			mu.Unlock()
+		}
+		readBatch := func(off int) []c10dec {
+			batch := make([]c10dec, 0, len(ids))
+			for j := range ids {
+				id := ids[(j+off)%len(ids)]
+				r, k := c10SRDecide(s, id)
+				batch = append(batch, c10dec{id, r, k})
+			}
+			return batch
+		}
+		// (a) free-running readers
+		stop := make(chan struct{})
+		var bg sync.WaitGroup
+		for w := 0; w < 2; w++ {
+			bg.Add(1)
+			go func(w int) {
+				defer bg.Done()
+				for n := 0; ; n++ {
+					select {
+					case <-stop:
+						return
+					default:
+					}
+					record(readBatch(n*7 + w))
+					if n > 4000 {
+						return
+					}
+				}
+			}(w)
+		}
+		// (b) readers released from inside the reload's log calls
+		var hooked sync.WaitGroup
+		var inside, hooks int64
+		hook := func() {
+			atomic.AddInt64(&hooks, 1)
+			done := make(chan struct{})
+			hooked.Add(1)
+			go func() {
+				defer hooked.Done()
+				defer close(done)
+				record(readBatch(0))
+			}()
+			select {
+			case <-done:
+				atomic.AddInt64(&inside, 1)
+			case <-time.After(2 * time.Millisecond):
+			}
+		}
+		hl.hook.Store(&hook)
+		prev := first
+		for step := 0; step < 6; step++ {
+			next := reloadRates[rng.Intn(len(reloadRates))]
+			configured[next] = true
+			if next == 0 {
+				configured[1] = true
+			}
+			c10SetRate(cfg, next)
+			s.UpdateFromConfig()
+			// after the reload returned, the new rate is in force
+			for _, d := range readBatch(step) {
+				want := next
+				if want == 0 {
+					want = 1
+				}
+				if uint64(d.rate) != want {
+					run.Violation("C10/stress-relief/reload/stale-rate-after-reload", fmt.Sprintf("UpdateFromConfig returned with SamplingRate %d but GetSampleRate reports %d", next, d.rate),
+						map[string]any{"previous_rate": fmt.Sprint(prev), "new_rate": fmt.Sprint(next), "trace_id": d.id})
+					break
+				}
+			}
+			record(readBatch(step))
+			run.Nontrivial(fmt.Sprintf("reload:%s->%s", c10SRRateClass(prev), c10SRRateClass(next)))
+			prev = next
+		}
+		hl.hook.Store(nil)
+		close(stop)
+		joined := make(chan struct{})
+		go func() { bg.Wait(); hooked.Wait(); close(joined) }()
+		select {
+		case <-joined:
+		case <-time.After(30 * time.Second):
+			run.Inconclusive("reload phase: reader goroutines did not finish within 30s")
+			return
+		}
+		run.Count("reload_reloads", 6)
+		run.Count("reload_log_calls_hooked", atomic.LoadInt64(&hooks))
+		run.Count("reload_reader_batches_finished_inside_a_log_call", atomic.LoadInt64(&inside))
+		mu.Lock()
+		defer mu.Unlock()
+		run.Count("reload_decisions", int64(len(decs)))
+		for _, d := range decs {
+			if !configured[uint64(d.rate)] {
+				run.Violation("C10/stress-relief/reload/rate-never-configured", fmt.Sprintf("GetSampleRate reported rate %d which was never configured", d.rate),
+					map[string]any{"trace_id": d.id, "rate": fmt.Sprint(d.rate)})
+				continue
+			}
+			if want := c10SRModelKeep(d.id, uint64(d.rate)); d.keep != want {
+				run.Violation("C10/stress-relief/reload/keep-inconsistent-with-returned-rate",
+					fmt.Sprintf("during a reload GetSampleRate returned rate %d with keep=%v, but the threshold rule for rate %d says %v", d.rate, d.keep, d.rate, want),
+					map[string]any{"trace_id": d.id, "returned_rate": fmt.Sprint(d.rate), "keep": d.keep, "model_keep": want, "first_rate": fmt.Sprint(first)})
+			}
+		}
 	})
 
 	nIDs := run.N(40000, 400000)
